@@ -17,8 +17,10 @@ CLAIMED = {
               "the action exists, random match sets; the deck with the keywords inlined is parsed into a second Schedule; "
               "TLC validates all snapshots (member-wise digests as in C03)."),
         design_ref="DESIGN.md section 5, C04",
-        note=("Trusted: TLC; observation through serialisation/accessors (C03); renderer.  WPIMULT and connection-level "
-              "shut-in (the property's per-step exemptions) are not in the action bodies."),
+        note=("Trusted: TLC; observation through serialisation/accessors (C03); renderer.  Bodies with WPIMULT are applied only at "
+              "report steps without a WPIMULT of their own and at most once per step, COMPDAT bodies not to wells whose connections are all "
+              "shut (the property's per-step exemptions); for histories with a WELPI application only the immutability of earlier steps, the "
+              "number of steps and the acceptance of the inlined deck are compared."),
         technique="TLA+ input generator + inlining relation checked by TLC over traces of the real Schedule::applyAction",
     ),
     "C01": dict(
@@ -42,7 +44,9 @@ CLAIMED = {
               "of powers of base quantities (the compositional law), offsets only for the relative temperature.  TLC emits the factor "
               "/ offset terms for all 4 x 46 (system, measure) pairs and all composite dimension strings of the shipped keyword "
               "definitions; harness/units evaluates them and compares UnitSystem::to_si / from_si (scalar and array overloads), "
-              "getDimension and parse; a physical model written as a deck in the four unit systems must give the same SI values."),
+              "getDimension and parse; a physical model written as a deck in the four unit systems must give the same SI values - for given "
+              "and for defaulted entries (non-zero keyword defaults) - and every double entry of those decks is converted deck units -> SI "
+              "-> deck units -> SI without change."),
         design_ref="DESIGN.md section 5, C02",
         note=("Trusted: TLC, the long double term interpreter, the physical constants listed in the evidence.  Output-file conversion is "
               "observed through the array overloads only; schedule / table values in several unit systems are exercised by C06 and C09."),
@@ -83,7 +87,7 @@ CLAIMED = {
               "checked by TLC against the published REAL-array layout for every index 0..12000 (formatted and "
               "unformatted); runs, base runs and the time axis / report-step positions a reader must present are a small "
               "state machine.  Files written with the writer's components for 1..4500 vectors x formatted x unified, with "
-              "and without a base run (same or different vector sets), are read by ESmry (selective and whole-file), by "
+              "and without a base run (same or different vector sets; the base run itself continuing an earlier run: chains of three), are read by ESmry (selective and whole-file), by "
               "make_esmry_file + ExtESmry; TLC validates every read event (time axis, report-step positions, vector "
               "counts) and requires the value/unit/start-date/key booleans."),
         design_ref="DESIGN.md section 5, C10",
@@ -120,7 +124,8 @@ CLAIMED = {
     "C12": dict(
         category="model_checking",
         text=("Oracle_FieldProps.tla is an explicit reference interpreter of the keyword operations over arrays on all "
-              "cells with per-cell status; TLC evaluates it on every generated program (random grids, ACTNUM masks, boxes, "
+              "cells with per-cell status; TLC evaluates it on every generated program (random grids, ACTNUM masks, boxes - given, fully "
+              "defaulted and partially defaulted - , "
               "region sets, defaulted entries, keyword defaults, input-error situations) and the real EclipseState built "
               "from the rendered deck is compared array by array, cell by cell, including defaulted flags and the "
               "error/no-error outcome; a quarter of the programs is repeated with all cells active."),
@@ -146,15 +151,16 @@ CLAIMED = {
     "C15": dict(
         category="model_checking",
         text=("SatMonitor.tla: the combinations of input family, table size, saturation regions, end-point scaling (off / two-point / "
-              "three-point, with or without per-cell end-point arrays) and Carlson hysteresis (off / identical / different imbibition "
-              "curves), enumerated by TLC; relations Node, Between, Range, Same, EndPoint, Scan over integer-scaled values.  Monotone "
+              "three-point, with or without per-cell end-point arrays), vertical scaling (KRW / KRWR, KRO / KRORW, KRG / KRGR per cell) and "
+              "Carlson hysteresis (off / identical / different imbibition curves), enumerated by TLC; relations Node, Between, Range, Same, "
+              "EndPoint, Scan, Mono over integer-scaled values.  Monotone "
               "random tables in both families and consistent end-points are drawn per model; harness/satmon builds "
               "EclMaterialLawManager for the primary deck and its companions (other family, unscaled, no hysteresis), evaluates the "
               "two-phase laws at all nodes and interior points, the three-phase API on random saturations and drainage / imbibition "
               "histories; TLC validates every event."),
         design_ref="DESIGN.md section 5, C15",
         note=("Trusted: TLC; the event scaling in the harness.  Stone models, Killough hysteresis, capillary-pressure hysteresis, vertical "
-              "scaling (KRW, KRO, KRG, PCW) and directional / irreversible scaling are not checked."),
+              "scaling of the capillary pressure or combined with two-point scaling / hysteresis, and directional / irreversible scaling are not checked."),
         technique="TLC-enumerated model combinations + TLC trace validation (monitor) of every evaluation of the real material law manager",
     ),
     "C16": dict(
@@ -213,9 +219,10 @@ CLAIMED = {
     "C20": dict(
         category="exploration",
         text=("Corruptions.tla: corruption scripts over decks and result files (random chains of <= 3 structure-aware operators by TLC "
-              "simulation, plus the systematic family that perturbs every integer of the first records of every keyword in six ways) "
+              "simulation, plus two systematic families: every integer - also of NAME=n mnemonics - of the first records of every keyword "
+              "perturbed in six ways, and each of the first 16 records of every keyword one value shorter, one and four values longer) "
               "and the admissible outcomes (a result or an exception derived from std::exception).  The driver resolves the scripts "
-              "against TLC-generated models and shipped result files; harness/crashprobe, linked against an ASan + UBSan build of the "
+              "against TLC-generated models, TLC-generated schedule sections (Schedule.tla) and shipped result files; harness/crashprobe, linked against an ASan + UBSan build of the "
               "current tree, runs parse / EclipseState / Schedule / SummaryConfig or EclFile / ERst / ESmry / EGrid under a time bound; "
               "TLC judges all recorded outcomes in one pass (Trace_Corruptions).  Exploration level: the inputs are specification "
               "behaviours, the verdict on memory safety is the sanitizers' on the executed paths."),
@@ -233,8 +240,8 @@ CLAIMED = {
               "saves steps 1..n with RestartIO::save in every file flavour, loads steps back (RestartIO::load, RstState + "
               "Action::State / UDQState::load_rst) and builds the restarted Schedule (RESTART + SKIPREST)."),
         design_ref="DESIGN.md section 5, C05",
-        note=("Trusted: TLC; the state generator and the attribute-level schedule projection in the harness.  METRIC units only; network, "
-              "aquifers, group controls beyond production targets and guide rates are not compared."),
+        note=("Trusted: TLC; the state generator and the attribute-level schedule projection in the harness.  All four unit systems; network, "
+              "aquifers, group controls beyond production targets and guide rates are not compared; of WECON the limits the restart file carries."),
         technique="TLC model checking of the save/load design + TLC trace validation of RestartIO::save/load and the restarted Schedule on TLC-generated models",
     ),
     "C06": dict(
